@@ -226,6 +226,7 @@ struct World {
     ok_completions: [u32; 2],
     real_accepts: u8,
     neighbor_downs: u8,
+    start_again: u8,
 }
 
 /// How the next event is chosen.
@@ -467,6 +468,7 @@ async fn run_world(f: &mut Fixture, ns: NamespaceId, not_syncing: NamespaceId, m
         ok_completions: [0, 0],
         real_accepts: 0,
         neighbor_downs: 0,
+        start_again: 0,
     };
 
     // (I5, lifecycle) node 1 syncs `not_syncing`, node 0 only holds it: node 1's dial must be declined as not found, the
@@ -539,6 +541,9 @@ async fn run_world(f: &mut Fixture, ns: NamespaceId, not_syncing: NamespaceId, m
             Ready(usize, bool),
             /// a real accepting side (`BobState::run` on the node's own store actor) whose first message fails locally
             RealFailingAccept(usize),
+            /// the application calls start_sync once more for a document that is already being synced (to add peers, or
+            /// because a ticket for it was imported again): whatever is in flight, the slots kept for the peers stay as they are
+            StartSyncAgain(usize),
             /// gossip tells node n that the peer is no longer its neighbour (through the real inbox dispatch, hook H10): that
             /// is news about the swarm, not about the sessions - nothing the coordination state says may change
             NeighborDown(usize),
@@ -576,6 +581,9 @@ async fn run_world(f: &mut Fixture, ns: NamespaceId, not_syncing: NamespaceId, m
                 }
                 if w.neighbor_downs < 3 {
                     enabled.push(Ev::NeighborDown(n));
+                }
+                if w.syncing[n] && w.start_again < 2 {
+                    enabled.push(Ev::StartSyncAgain(n));
                 }
             }
         }
@@ -739,6 +747,39 @@ async fn run_world(f: &mut Fixture, ns: NamespaceId, not_syncing: NamespaceId, m
                     }
                     w.inflight.push(Item::Request { from: n, reason: SyncReason::DirectJoin, id });
                     o.class("re-join-dialled-the-remembered-peer");
+                }
+            }
+            Ev::StartSyncAgain(n) => {
+                let me = w.map[n];
+                let peer = f.ids[w.map[1 - n]];
+                w.start_again += 1;
+                let before = f.actors[me].verif_snapshot(&w.ns, &peer);
+                let Some(started) = f.actors[me].verif_start_sync(w.ns).await else {
+                    return Err("start_sync failed".into());
+                };
+                let after = f.actors[me].verif_snapshot(&w.ns, &peer);
+                o.class("start-sync-again-while-syncing");
+                if !w.inflight.is_empty() {
+                    o.class("start-sync-again-with-items-in-flight");
+                }
+                if started {
+                    // it dials the peers the store remembers as useful - only from an idle slot
+                    if is_running(&before) {
+                        o.fail("C11/dial-while-running", format!("step {}: a repeated start_sync at node {n} dialled the peer although its slot was {before:?}", w.step));
+                        return Ok(());
+                    }
+                    let id = w.next_id;
+                    w.next_id += 1;
+                    if w.inflight.iter().any(|i| matches!(i, Item::Request { .. })) {
+                        w.two_requests_at_once = true;
+                    }
+                    w.inflight.push(Item::Request { from: n, reason: SyncReason::DirectJoin, id });
+                } else if format!("{before:?}") != format!("{after:?}") {
+                    o.fail(
+                        "C11/start-sync-again-changed-the-slot",
+                        format!("step {}: a repeated start_sync at node {n} changed the state kept for the peer from {before:?} to {after:?}; {} items in flight", w.step, w.inflight.len()),
+                    );
+                    return Ok(());
                 }
             }
             Ev::NeighborDown(n) => {
